@@ -38,15 +38,17 @@ VARIABLES l, c,
           wid,       \* wid[r]: wire ID (NoId if nothing went on the wire)
           got,       \* got[r]: number of responses r's receiver has yielded
           owed,      \* owed[r]: tags that arrived with r's ID while r was pending, not yet yielded
-          must,      \* <<r, tag>>: first responses that have to be yielded at the next poll
-          canFail,   \* requests that may fail at the next poll (just sent; clock moved)
+          must,      \* <<r, tag>>: responses that have to be yielded at the next poll
+          canFail,   \* requests that may fail at the next poll (just sent: refusal)
+          aged,      \* requests that were pending when the clock moved: they may expire at any
+                     \* later poll (an implementation may notice a passed deadline lazily)
           mustFail,  \* requests that have to fail at the next poll (nothing went on the wire)
           closing,   \* the inbound side has ended, not yet polled
           garb,      \* an undecodable message has been queued since the last poll
           closed,
           skipping, bad
 
-mvars == <<n, st, wid, got, owed, must, canFail, mustFail, closing, garb, closed>>
+mvars == <<n, st, wid, got, owed, must, canFail, aged, mustFail, closing, garb, closed>>
 tvars == <<l, c, mvars, skipping, bad>>
 
 NoId == 70000
@@ -55,8 +57,8 @@ PendingOf(s) == {r \in R : s[r] = "pending"}
 
 Init ==
     /\ l = 1 /\ c = "none" /\ n = 0 /\ st = <<>> /\ wid = <<>> /\ got = <<>> /\ owed = <<>>
-    /\ must = {} /\ canFail = {} /\ mustFail = {} /\ closing = FALSE /\ garb = FALSE /\ closed = FALSE
-    /\ skipping = FALSE /\ bad = 0
+    /\ must = {} /\ canFail = {} /\ aged = {} /\ mustFail = {} /\ closing = FALSE /\ garb = FALSE
+    /\ closed = FALSE /\ skipping = FALSE /\ bad = 0
 
 e == Rec[l]
 
@@ -65,14 +67,14 @@ Reset ==
     /\ c' = e.case /\ n' = e.n
     /\ st' = [r \in 1..e.n |-> "new"] /\ wid' = [r \in 1..e.n |-> NoId]
     /\ got' = [r \in 1..e.n |-> 0] /\ owed' = [r \in 1..e.n |-> {}]
-    /\ must' = {} /\ canFail' = {} /\ mustFail' = {} /\ closing' = FALSE /\ garb' = FALSE /\ closed' = FALSE
-    /\ skipping' = FALSE /\ bad' = bad
+    /\ must' = {} /\ canFail' = {} /\ aged' = {} /\ mustFail' = {} /\ closing' = FALSE /\ garb' = FALSE
+    /\ closed' = FALSE /\ skipping' = FALSE /\ bad' = bad
 
 (***************************************************************************)
 (* Step 1: the effect of the event itself on the monitor state             *)
 (* (a record of the intermediate values).                                  *)
 (***************************************************************************)
-Cur == [st |-> st, wid |-> wid, owed |-> owed, must |-> must, canFail |-> canFail,
+Cur == [st |-> st, wid |-> wid, owed |-> owed, must |-> must, canFail |-> canFail, aged |-> aged,
         mustFail |-> mustFail, closing |-> closing, garb |-> garb]
 
 \* requests a response with this ID is for
@@ -107,7 +109,7 @@ After ==
                         !.must = {m \in must : m[1] # e.r},
                         !.canFail = canFail \ {e.r},
                         !.mustFail = mustFail \ {e.r}]
-      [] e.ev = "advance" -> [Cur EXCEPT !.canFail = PendingOf(st)]
+      [] e.ev = "advance" -> [Cur EXCEPT !.aged = IF e.ms > 0 THEN aged \cup PendingOf(st) ELSE aged]
       [] e.ev = "close"   -> [Cur EXCEPT !.closing = TRUE]
       [] e.ev = "garbage" -> [Cur EXCEPT !.garb = TRUE]
       [] OTHER            -> Cur
@@ -136,8 +138,8 @@ ItemOK(a, obs, i) ==
          /\ o.rid = a.wid[o.r]                     \* C16_RoutedById on the message handed over
          /\ \A j \in 1..(i - 1) : ~(obs[j].r = o.r /\ obs[j].k = "ok" /\ obs[j].tag = o.tag)
     \* C16_UnknownDropped: no other reason to fail
-    /\ o.k = "err" => (o.r \in a.canFail \/ a.closing)
-    /\ o.k = "end" => (o.r \in a.canFail \/ a.closing \/ Answered(obs, i, o.r))
+    /\ o.k = "err" => (o.r \in a.canFail \/ o.r \in a.aged \/ a.closing)
+    /\ o.k = "end" => (o.r \in a.canFail \/ o.r \in a.aged \/ a.closing \/ Answered(obs, i, o.r))
 
 ObsOK(a, obs) ==
     /\ \A i \in 1..Len(obs) : ItemOK(a, obs, i)
@@ -156,7 +158,7 @@ Allowed ==
     /\ IF ~e.p THEN
           LET a == After IN
           /\ st' = a.st /\ wid' = a.wid /\ owed' = a.owed /\ must' = a.must /\ canFail' = a.canFail
-          /\ mustFail' = a.mustFail /\ closing' = a.closing /\ garb' = a.garb
+          /\ mustFail' = a.mustFail /\ closing' = a.closing /\ garb' = a.garb /\ aged' = a.aged
           /\ UNCHANGED <<n, got, closed>>
        ELSE
           LET a == AfterPolled IN
@@ -167,6 +169,7 @@ Allowed ==
           /\ owed' = [r \in R |-> IF r \in FailedIn(e.obs) THEN {} ELSE a.owed[r] \ TagsOf(e.obs, r)]
           /\ must' = {} /\ canFail' = {} /\ mustFail' = {}
           /\ closing' = FALSE /\ garb' = FALSE /\ closed' = a.closing
+          /\ aged' = a.aged \ FailedIn(e.obs)
           /\ UNCHANGED n
 
 \* which requirement the event breaks (first that applies)
@@ -177,7 +180,7 @@ WhyItem(a, obs, i) ==
     ELSE IF o.k = "ok" /\ o.tag \notin a.owed[o.r] THEN
         "C16_RoutedById: a receiver was handed a response that did not arrive with its ID while it was pending (misrouted, unknown ID not dropped, or handed over twice)"
     ELSE IF o.k = "ok" /\ o.rid # a.wid[o.r] THEN "C16_RoutedById: the response handed over does not carry the request's ID"
-    ELSE IF o.k \in {"err", "end"} THEN "C16_UnknownDropped: a pending request failed although the connection is open and no time has passed"
+    ELSE IF o.k \in {"err", "end"} THEN "C16_UnknownDropped: a pending request failed although the connection is open and no time has passed since it was sent"
     ELSE "C16_NoOther: item repeated or yielded after the receiver failed"
 Why ==
     IF ~Pre THEN
